@@ -195,6 +195,9 @@ fn structural(bad: &mut Vec<String>) {
         if ids(pg::get_scoped_local_members(s, g)) != local {
             bad.push(format!("get_scoped_local_members({s},{g}) disagrees with the membership"));
         }
+        if s == DS && ids(pg::get_local_members(g)) != local {
+            bad.push(format!("get_local_members({g}) disagrees with the membership"));
+        }
         if s == DS && ids(pg::get_members(g)) != *m {
             bad.push(format!("get_members({g}) disagrees with the membership"));
         }
@@ -232,7 +235,18 @@ fn body(sc: Sc) -> vsched::Body {
         Box::pin(async move {
             let mut cells = Vec::new();
             let mut ports = Vec::new();
-            for _ in 0..sc.n_cells {
+            for i in 0..sc.n_cells {
+                // scenarios named remote-…: cell 0 carries a remote id (what a cluster session creates for a
+                // peer's actor); only the cluster build can make one
+                #[cfg(feature = "alt")]
+                let (c, p) = if i == 0 && sc.name.starts_with("remote-") {
+                    inspect::detached_remote::<Dummy>(ActorId::Remote { node_id: 7, pid: 4242 }).expect("remote cell")
+                } else {
+                    inspect::detached::<Dummy>(None).expect("cell")
+                };
+                #[cfg(not(feature = "alt"))]
+                let _ = i;
+                #[cfg(not(feature = "alt"))]
                 let (c, p) = inspect::detached::<Dummy>(None).expect("cell");
                 inspect::set_status(&c, ActorStatus::Running);
                 cells.push(c);
@@ -573,6 +587,18 @@ pub fn plan(tier: &str) -> Plan {
         ..Default::default()
     };
     let mut units = Vec::new();
+    // a member with a remote id (cluster build): it joins, is listed by get_members but not by
+    // get_local_members, leaves by exiting like any other
+    {
+        let (a, b, m, mw, n) = (0usize, 1usize, 2usize, 3usize, 4usize);
+        for sc in [
+            Sc { name: "remote-member-stays-vs-local-leaves", n_cells: 5, setup: vec![Op::MonitorScope("s", mw)], threads: vec![vec![Op::Join("s", "g", vec![a, a, b])], vec![Op::Leave("s", "g", vec![b]), Op::Members("s", "g")]], strangers: vec![n, m], after: vec![Op::Listing] },
+            Sc { name: "remote-member-exits-vs-local-joins", n_cells: 5, setup: vec![Op::Join(DS, "g", vec![a]), Op::Join(DS, "h", vec![a, b]), Op::Monitor("g", m)], threads: vec![vec![Op::Exit(a)], vec![Op::Members(DS, "g"), Op::Join(DS, "g", vec![b])]], strangers: vec![n], after: vec![Op::Listing] },
+            Sc { name: "remote-member-join-vs-exit", n_cells: 5, setup: vec![Op::Monitor("g", m), Op::MonitorScope(pg::ALL_SCOPES_NOTIFICATION, mw)], threads: vec![vec![Op::Join(DS, "g", vec![a, b])], vec![Op::Exit(a)]], strangers: vec![n], after: vec![] },
+        ] {
+            units.push(crate::common::alt_unit(format!("alt/pg/{}", sc.name), cfg.clone(), None, body(sc), 8));
+        }
+    }
     for (sc, bound, split) in scenarios() {
         let bound = match (bound, thorough) {
             (None, _) => None,
